@@ -403,9 +403,12 @@ def trace_cfg(mode, nostats=False):
 def validate(chk, traces, tag, nostats=False):
     """TLC decides, per trace, whether ServerMain explains it.  Returns (accepted, [(trace, hw)] rejected)."""
     groups = collections.defaultdict(list)
+    noted = [t for t in traces if t.get("note")]
+    if noted:
+        chk.fail("servermain harness: %d schedule(s) without a usable trace, e.g. schedule %s: %s" % (len(noted), noted[0]["id"], noted[0]["note"]))
     for t in traces:
         if t.get("note"):
-            raise vlib.Inconclusive("servermain harness: schedule %s: %s" % (t["id"], t["note"]))
+            continue
         if (t.get("info") or {}).get("fd_not_found"):
             raise vlib.Inconclusive("servermain harness: schedule %s: the handler's end of the ORPort connection was not found among the process's descriptors" % t["id"])
         groups[t["mode"]].append(t)
